@@ -33,6 +33,7 @@ type histOp struct {
 	miss   bool
 	call   int
 	ret    int
+	via    int // writes: 0 disk.Put, 1 HTTP PUT, 2 ByteStream.Write (asks Contains first)
 }
 
 type regIn struct {
@@ -189,12 +190,27 @@ func conc(c *Ctx) {
 					abortAt = r.Intn(len(data))
 				}
 				cuts := world.DrawCuts(r, len(data))
-				plans[ci] = append(plans[ci], planned{descr: fmt.Sprintf("put cas %s fault=%d cuts=%v", b.ID, fault, cuts), run: func(cl *world.Client, ci int) {
+				via := r.Weighted(3, 1, 1) // disk.Put, HTTP PUT, ByteStream.Write
+				plans[ci] = append(plans[ci], planned{descr: fmt.Sprintf("put cas %s via=%d fault=%d cuts=%v", b.ID, via, fault, cuts), run: func(cl *world.Client, ci int) {
 					if fault != 0 {
 						s.Fault(fmt.Sprintf("upload.corrupt%d", fault))
 					}
-					res := cl.DiskPut(cache.CAS, b.Hash, b.Size(), world.NewParkReader(s, data, cuts, abortAt))
-					s.Note("c%d put cas %s -> %s", ci, b.ID, res.Code)
+					var res world.Res
+					switch via {
+					case 1:
+						res, _ = cl.HTTP(world.HTTPReq{Method: "PUT", Path: "/cas/" + b.Hash, CLen: b.Size(), Body: world.LimitBody(world.NewParkReader(s, data, cuts, abortAt), b.Size()), FailAt: -1, ParkAt: -1})
+					case 2:
+						name := world.WriteName("", fmt.Sprintf("c%d", ci), b.Hash, b.Size(), false, "")
+						var endErr error
+						d2 := data
+						if abortAt >= 0 {
+							d2, endErr = data[:abortAt], world.ErrInjected
+						}
+						res, _ = cl.BSWrite(world.SplitMsgs(name, d2, cuts, abortAt < 0, true), endErr)
+					default:
+						res = cl.DiskPut(cache.CAS, b.Hash, b.Size(), world.NewParkReader(s, data, cuts, abortAt))
+					}
+					s.Note("c%d put cas %s via %d -> %s", ci, b.ID, via, res.Code)
 					if fault != 0 && res.OK {
 						s.Violate("C01.reject", "disk.Put", "corrupted upload (fault %d) of %s acknowledged", fault, b.ID)
 					}
@@ -205,7 +221,7 @@ func conc(c *Ctx) {
 							s.Violate("C01.accept", "disk.Put", "well-formed upload of %s refused: %s %s", b.ID, res.Code, res.Err)
 						}
 					}
-					add(histOp{client: ci, key: "cas/" + b.Hash, write: true, val: b.Hash, size: b.Size(), ok: res.OK, call: res.Call, ret: res.Ret})
+					add(histOp{client: ci, key: "cas/" + b.Hash, write: true, val: b.Hash, size: b.Size(), ok: res.OK, call: res.Call, ret: res.Ret, via: via})
 				}})
 			case 1: // AC put with a unique value
 				k := acKeys[r.Intn(len(acKeys))]
@@ -236,9 +252,26 @@ func conc(c *Ctx) {
 				if r.Chance(1, 2) {
 					ro.ParkAt = r.Intn(int(b.Size()) + 1)
 				}
-				plans[ci] = append(plans[ci], planned{descr: fmt.Sprintf("get cas %s z=%v size=%d park=%d", b.ID, z, size, ro.ParkAt), run: func(cl *world.Client, ci int) {
-					res := cl.DiskGet(cache.CAS, b.Hash, size, 0, z, ro)
-					s.Note("c%d get cas %s -> %s found=%v n=%d", ci, b.ID, res.Code, res.Found, len(res.Data))
+				gvia := r.Weighted(3, 1, 1) // disk.Get, HTTP GET, ByteStream.Read
+				plans[ci] = append(plans[ci], planned{descr: fmt.Sprintf("get cas %s via=%d z=%v size=%d park=%d", b.ID, gvia, z, size, ro.ParkAt), run: func(cl *world.Client, ci int) {
+					var res world.Res
+					switch gvia {
+					case 1:
+						res = cl.HTTPGet("/cas/"+b.Hash, z, ro)
+						if res.Found && res.OK && !z {
+							res.Size = b.Size() // Content-Length is judged by C02; here only the bytes
+						} else if res.Found && res.OK {
+							res.Size = b.Size()
+						}
+					case 2:
+						res = cl.BSRead(world.ReadName("", b.Hash, b.Size(), z), 0, 0, z, ro)
+						if res.Found && res.OK {
+							res.Size = b.Size()
+						}
+					default:
+						res = cl.DiskGet(cache.CAS, b.Hash, size, 0, z, ro)
+					}
+					s.Note("c%d get cas %s via %d -> %s found=%v n=%d", ci, b.ID, gvia, res.Code, res.Found, len(res.Data))
 					if res.Found && res.OK {
 						if !bytes.Equal(res.Data, b.Data) {
 							s.Violate("C07.whole", "disk.Get/cas", "read of %s returned %d bytes that are not the blob (%d bytes)", b.ID, len(res.Data), len(b.Data))
@@ -341,7 +374,7 @@ func conc(c *Ctx) {
 		s.Violate("C14.fds", "fd", "open descriptors into the cache directory with no request in flight: %v", fds)
 	}
 	c.Res.StateHash = StateHash(world.Observe(n))
-	checkRegisters(c, hist, !tight)
+	checkRegisters(c, hist, !tight, corruptKey)
 }
 
 func short(h string) string {
@@ -356,7 +389,7 @@ func short(h string) string {
 // wholly after the read; a miss is legal only if no acknowledged upload
 // completed before the lookup started (roomy caches only: in tight ones
 // eviction excuses a miss).
-func checkRegisters(c *Ctx, hist []histOp, roomy bool) {
+func checkRegisters(c *Ctx, hist []histOp, roomy bool, corruptKey map[string]bool) {
 	byKey := map[string][]histOp{}
 	for _, h := range hist {
 		byKey[h.key] = append(byKey[h.key], h)
@@ -422,7 +455,27 @@ func checkRegisters(c *Ctx, hist []histOp, roomy bool) {
 		for _, h := range ops {
 			d = append(d, fmt.Sprintf("c%d %s %s ok=%v miss=%v [%d,%d]", h.client, map[bool]string{true: "W", false: "R"}[h.write], short(h.val), h.ok, h.miss, h.call, h.ret))
 		}
-		c.S.Violate("C07.weak-register", k[:strings.IndexByte(k, '/')], "history of key %s is not explained by the weak register model (roomy=%v): %s", short(k), roomy, strings.Join(d, "; "))
+		site := k[:strings.IndexByte(k, '/')]
+		if corruptKey[k] {
+			site += "/corrupt-file-on-disk" // the key had a corrupt file on disk when the instance started
+			// is every miss preceded only by uploads acknowledged on a path
+			// that asks Contains first (and so may have skipped the upload)?
+			onlyEarlyExit := true
+			for _, rd := range ops {
+				if rd.write || !rd.miss {
+					continue
+				}
+				for _, h := range ops {
+					if h.write && h.ok && h.ret < rd.call && h.via != 2 {
+						onlyEarlyExit = false
+					}
+				}
+			}
+			if onlyEarlyExit {
+				site += "/acked-by-exists-check-only" // every acknowledged upload went through a path that asks Contains first
+			}
+		}
+		c.S.Violate("C07.weak-register", site, "history of key %s is not explained by the weak register model (roomy=%v): %s", short(k), roomy, strings.Join(d, "; "))
 	}
 }
 
